@@ -245,6 +245,9 @@ func main() {
 
 	// ---- Cfg
 	writeIfChanged(filepath.Join(out, "Cfg.lean"), hdr+genCfg(root, common, freelist))
+
+	// ---- Tree (fingerprints of the transcribed tree/bucket/cursor functions)
+	writeIfChanged(filepath.Join(out, "Tree.lean"), hdr+genTree(root))
 }
 
 // checksumLen finds, in Meta.Sum64, the array length of the conversion
